@@ -97,8 +97,18 @@ class Ctx:
         # output
         os.makedirs(os.path.join(VERIF, "replays"), exist_ok=True)
         os.makedirs(os.path.join(VERIF, "evidence"), exist_ok=True)
+        if not os.environ.get("PV_NO_EVIDENCE"):
+            import glob
+
+            for old_rp in glob.glob(os.path.join(VERIF, "replays", f"{self.prop}-*.json")):
+                os.remove(old_rp)
         for key, n in known_hits:
             print(f"KNOWN-FINDING: property={self.prop} {key} x{n} :: {known_what.get(key, '')}")
+        seen_counts = dict(known_hits)
+        for key, allowed in sorted(known_open.items()):
+            if seen_counts.get(key, 0) < allowed:
+                # informational only: a listed finding that is (partly) gone never fails a check
+                print(f"NOTE: property={self.prop} listed finding observed {seen_counts.get(key, 0)}/{allowed} times: {key}")
         for i, v in enumerate(violations):
             rp = os.path.join(VERIF, "replays", f"{self.prop}-{i}.json") if not os.environ.get("PV_NO_EVIDENCE") else os.path.join("/tmp", f"pv-replay-{self.prop}-{i}.json")
             with open(rp, "w") as fh:
